@@ -16,18 +16,22 @@ implementation-side oracle and the correspondence runs of checks/C05.py):
                   relation (garbler pair, evaluator label, plain bit) on the
                   GLOBAL wire store, for every hash pair, offset, id maps and
                   every start value of the stream-wide tweak counter;
-  compile side  * `C05_gc_safe_partial`: `Program.GC` never frees an id range
-                  that a later-read value points into -- for programs without
-                  alias-of-alias and without `concat` of non-constants;
-                * the full statement `C05_gc_safe` (no such restriction) is
-                  FALSE for the code as it is: `C05_gc_unsafe_alias_chain` and
-                  `C05_gc_unsafe_concat` are concrete programs on which the
-                  model of `Program.GC` frees a range that is still pointed at,
-                  and `C05_gc_chain_ids_collide` / `C05_gc_concat_ids_collide`
-                  show in the allocator model that the very next value gets
-                  those ids while the dangling value is still returned.  Both
-                  witnesses are replayed on the real streaming pair by the
-                  harness (corpus programs 0 and 1) and give wrong results.
+  compile side  * `C05_gc_safe`: `Program.GC` (as of fix 0c2f851: `Concat` in
+                  the alias operand list, liveness closed over direct AND
+                  indirect aliases) never frees an id range that a later-read
+                  value points into -- for EVERY well-formed step list;
+                * `C05_gc_safe_transitive`: the general statement behind it (any
+                  alias table that covers everything pointing into a value);
+                * history: for the pass BEFORE 0c2f851 (`gcPassOld`, direct
+                  aliases through seven operands) only
+                  `C05_gcOld_safe_partial` holds; `C05_gcOld_unsafe_alias_chain`
+                  and `C05_gcOld_unsafe_concat` are the two negation witnesses,
+                  `C05_gcOld_chain_ids_collide` / `C05_gcOld_concat_ids_collide`
+                  show the id collision in the allocator model, and
+                  `C05_gc_witnesses_now_safe` runs the current pass on them.
+                  The witnesses stay in the harness corpus (programs 0 and 1):
+                  they gave wrong results on the real streaming pair before the
+                  fix and agree with the whole circuit now.
 -/
 import MpcVerif.Proofs.Gc
 import MpcVerif.Proofs.Stream
@@ -186,17 +190,14 @@ example : wfAll exProg (fun l => l = (false, 3) ∨ l = (false, 70000)) := by
 
 /-! ## Compile side -/
 
-/-- FULL statement (false for the code as it is, see the witnesses below):
-
-    theorem C05_gc_safe (prog out) : WF prog → gcPass prog = some out → Safe prog out
-
-Proved part: programs in which every rewired value (cast, constant shift,
-slice, move, array update) is rewired directly from a value that owns its
-wires, and `concat` is applied to constants only.  Missing: alias-of-alias
-chains and `concat`, for which the statement is false. -/
-theorem C05_gc_safe_partial (prog out : List Step) (hwf : WF prog) (hnc : NoChain prog)
-    (hcc : NoConcat prog) (hgc : gcPass prog = some out) : Safe prog out := by
-  unfold gcPass gcPassWith at hgc
+/-- The pass BEFORE 0c2f851 (`gcPassOld`) was safe only for programs in which
+every rewired value (cast, constant shift, slice, move, array update) is
+rewired directly from a value that owns its wires, and `concat` is applied to
+constants only; for alias-of-alias chains and `concat` it was not (witnesses
+below). -/
+theorem C05_gcOld_safe_partial (prog out : List Step) (hwf : WF prog) (hnc : NoChain prog)
+    (hcc : NoConcat prog) (hgc : gcPassOld prog = some out) : Safe prog out := by
+  unfold gcPassOld gcPassWith at hgc
   cases hlast : prog.getLast? with
   | none => rw [hlast] at hgc; cases hgc
   | some last =>
@@ -206,11 +207,11 @@ theorem C05_gc_safe_partial (prog out : List Step) (hwf : WF prog) (hnc : NoChai
     · cases hgc
     · simp only [Option.some.injEq] at hgc
       intro pre post g hsplit hgop a ha t ht htop b hb hbc hpt
-      have hal : ∀ d ∈ prog, d.op.gcAlias = true → ∀ a ∈ d.ins, a.const = false →
-          ∀ w, d.outId = some w → w ∈ aliasesOf prog a.id := by
+      have hal : ∀ d ∈ prog, d.op.gcAliasOld = true → ∀ a ∈ d.ins, a.const = false →
+          ∀ w, d.outId = some w → w ∈ aliasesOfOld prog a.id := by
         intro d hd hda a ha hac w hw
-        exact (mem_aliasesOf prog a.id w).mpr ⟨d, hd, hda, reads_of_mem d a ha hac, hw⟩
-      obtain ⟨a0, hg0, _, hdir⟩ := gcBack_direct prog (aliasesOf prog) (last.ins.map (·.id))
+        exact (mem_aliasesOfOld prog a.id w).mpr ⟨d, hd, hda, reads_of_mem d a ha hac, hw⟩
+      obtain ⟨a0, hg0, _, hdir⟩ := gcBack_direct prog (aliasesOfOld prog) (last.ins.map (·.id))
         hwf.nogc hwf.ssa hal [] prog rfl hwf.dbu pre post g (by rw [hgc]; exact hsplit) hgop
       have haa : a = a0 := by
         rw [hg0] at ha
@@ -220,17 +221,15 @@ theorem C05_gc_safe_partial (prog out : List Step) (hwf : WF prog) (hnc : NoChai
       rcases pointsInto_nochain prog hnc b.id a.id hpt with heq | ⟨s, hs, hrw, hout, a', ha', ha'c, ha'id⟩
       · exact hne heq
       · apply hnal
-        refine ⟨s, hs, gcAlias_of_rewires s.op hrw ?_, hout, a', ha', ha'c, ha'id⟩
+        refine ⟨s, hs, gcAliasOld_of_rewires s.op hrw ?_, hout, a', ha', ha'c, ha'id⟩
         intro hconcat
         have := hcc s hs hconcat a' ha'
         rw [ha'c] at this; cases this
 
-/-- Specification of a sufficient fix: if the alias table consulted by the
-backward pass lists, for every value `v`, every value that points into `v`
-(transitively, through all eight rewiring operands), the inserted `gc`s are
-safe for EVERY well-formed program.  `Program.GC`'s table has only direct
-aliases through seven operands, which is why only `C05_gc_safe_partial`
-holds for it. -/
+/-- The general statement: if the alias table consulted by the backward pass
+lists, for every value `v`, every value that points into `v` (transitively,
+through all eight rewiring operands), the inserted `gc`s are safe for EVERY
+well-formed program. -/
 theorem C05_gc_safe_transitive (prog out : List Step) (al : Nat → List Nat) (hwf : WF prog)
     (hal : ∀ w v, PointsInto prog w v → w ≠ v → w ∈ al v)
     (hgc : gcPassWith al prog = some out) : Safe prog out := by
@@ -251,6 +250,15 @@ theorem C05_gc_safe_transitive (prog out : List Step) (al : Nat → List Nat) (h
         simpa [gcStep] using ha
       subst haa
       exact hsafe t ht htop b hb hbc hpt
+
+/-- MAIN compile-side theorem, for `Program.GC` as it is: after GC insertion no
+id range is returned to a free list while a value whose ids point into it
+(transitively, through mov / smov / slice / lshift / rshift / srshift / amov /
+concat rewiring) is still read later.  No restriction on aliasing. -/
+theorem C05_gc_safe (prog out : List Step) (hwf : WF prog) (hgc : gcPass prog = some out) :
+    Safe prog out :=
+  C05_gc_safe_transitive prog out (aliasClosure (aliasesOf prog) prog.length) hwf
+    (fun w v h hne => closure_covers prog hwf.dbu w v h hne) hgc
 
 def mkV (id bits : Nat) : Arg := { const := false, id := id, key := id, bits := bits, signed := false, cint := 0 }
 def mkC (id bits n : Nat) : Arg := { const := true, id := id, key := id, bits := bits, signed := false, cint := n }
@@ -278,17 +286,18 @@ def chainProg : List Step :=
    ⟨.circ, [mkV 1 8, mkC 11 8 3], some (mkV 5 8)⟩,
    ⟨.ret, [mkV 3 8, mkV 4 8, mkV 5 8], none⟩]
 
-/-- What the model of `Program.GC` makes of it: `gc a` right after `a + b`,
+/-- What the model of the OLD `Program.GC` made of it: `gc a` right after `a + b`,
 although `t1` (returned at the end) is wired to `a`'s ids through `t0`. -/
 def chainOut : List Step :=
   [chainProg[0], chainProg[1], chainProg[2], gcStep (mkV 0 8), chainProg[3], gcStep (mkV 1 8), chainProg[4]]
 
-theorem C05_gc_chain_pass : gcPass chainProg = some chainOut := by decide
+theorem C05_gcOld_chain_pass : gcPassOld chainProg = some chainOut := by decide
 
-/-- Negation witness 1: `C05_gc_safe` fails on a well-formed program with an
-alias-of-alias chain. -/
-theorem C05_gc_unsafe_alias_chain : WF chainProg ∧ gcPass chainProg = some chainOut ∧ ¬ Safe chainProg chainOut := by
-  refine ⟨⟨by decide, by decide, by decide⟩, C05_gc_chain_pass, ?_⟩
+/-- Negation witness 1 (old pass): safety failed on a well-formed program with
+an alias-of-alias chain. -/
+theorem C05_gcOld_unsafe_alias_chain :
+    WF chainProg ∧ gcPassOld chainProg = some chainOut ∧ ¬ Safe chainProg chainOut := by
+  refine ⟨⟨by decide, by decide, by decide⟩, C05_gcOld_chain_pass, ?_⟩
   intro h
   refine h [chainProg[0], chainProg[1], chainProg[2]] [chainProg[3], gcStep (mkV 1 8), chainProg[4]]
     (gcStep (mkV 0 8)) rfl rfl (mkV 0 8) (by simp [gcStep]) chainProg[4] (by simp) (by decide)
@@ -302,7 +311,7 @@ theorem C05_gc_unsafe_alias_chain : WF chainProg ∧ gcPass chainProg = some cha
 8-bit value: the ids returned for `t1` (first 8) and for `t3 = b + 3` (last 8)
 overlap, so the evaluator reads bits of `b + 3` where bits of `a >> 2` are
 meant.  Go: `[20 24 80]` instead of `[50 24 80]` for a=203, b=77. -/
-theorem C05_gc_chain_ids_collide :
+theorem C05_gcOld_chain_ids_collide :
     let tr := (streamTrace [(0, 8), (1, 8)]
       [⟨10, [true, false, false, false]⟩, ⟨11, [true, true, false, false, false, false, false, false]⟩]
       chainOut).2
@@ -323,8 +332,9 @@ def concatOut : List Step :=
   [concatProg[0], gcStep (mkV 1 32), concatProg[1], gcStep (mkV 0 32), concatProg[2], gcStep (mkV 2 32),
    concatProg[3]]
 
-/-- Negation witness 2: a direct `concat` alias is enough. -/
-theorem C05_gc_unsafe_concat : WF concatProg ∧ gcPass concatProg = some concatOut ∧ ¬ Safe concatProg concatOut := by
+/-- Negation witness 2 (old pass): a direct `concat` alias was enough. -/
+theorem C05_gcOld_unsafe_concat :
+    WF concatProg ∧ gcPassOld concatProg = some concatOut ∧ ¬ Safe concatProg concatOut := by
   refine ⟨⟨by decide, by decide, by decide⟩, by decide, ?_⟩
   intro h
   refine h [concatProg[0], gcStep (mkV 1 32), concatProg[1]] [concatProg[2], gcStep (mkV 2 32), concatProg[3]]
@@ -333,18 +343,17 @@ theorem C05_gc_unsafe_concat : WF concatProg ∧ gcPass concatProg = some concat
   refine PointsInto.step concatProg[1] (mkV 0 32) 3 0 (by decide) rfl rfl (by decide) rfl ?_
   exact PointsInto.self 0 (by decide)
 
-theorem C05_gc_concat_ids_collide :
+theorem C05_gcOld_concat_ids_collide :
     let tr := (streamTrace [(0, 32), (1, 32)]
       [⟨10, [true, true]⟩, ⟨11, List.replicate 32 false⟩, ⟨12, [true, false, true]⟩] concatOut).2
     tr.retIds.length = 96 ∧ tr.retIds.take 32 = (tr.retIds.drop 64) := by
   decide +kernel
 
-/-- The executable closure (`gcPassFixed`: alias table closed transitively over
-all rewiring operands) on the two witnesses: `gc a` is no longer emitted. -/
-theorem C05_gc_fixed_on_witnesses :
-    gcPassFixed chainProg =
+/-- The current pass on the two witnesses: `gc a` is no longer emitted. -/
+theorem C05_gc_witnesses_now_safe :
+    gcPass chainProg =
       some [chainProg[0], chainProg[1], chainProg[2], chainProg[3], gcStep (mkV 1 8), chainProg[4]] ∧
-    gcPassFixed concatProg =
+    gcPass concatProg =
       some [concatProg[0], gcStep (mkV 1 32), concatProg[1], concatProg[2], gcStep (mkV 2 32), concatProg[3]] := by
   decide
 
